@@ -64,10 +64,10 @@ ASSUMPTIONS = [
 ]
 BUDGET = {"quick": {"worker_timeout": 900, "case_timeout": 120}, "thorough": {"worker_timeout": 3300, "case_timeout": 300}}
 REQUIRED_COUNTERS = {
-    "quick": {"extra_first_order_compared": 100, "extra_first_M_param_frozen": 15, "extra_noparam_operator_compared": 15, "implicit_backward_solves": 1500, "dense_backward_calls": 300, "degeneracy_maps_seen": 400, "bck_exactsolve": 800,
+    "quick": {"extra_first_order_compared": 100, "extra_first_M_param_frozen": 15, "extra_noparam_operator_compared": 15, "extra_repeated_backward_compared": 20, "implicit_backward_solves": 1500, "dense_backward_calls": 300, "degeneracy_maps_seen": 400, "bck_exactsolve": 800,
               "bck_cg": 500, "bck_bicgstab": 400, "davidson_calls": 400, "first_order_compared": 700, "second_order_compared": 500,
               "fd_directions_compared": 1500, "svd_cases_compared": 350, "with_M_compared": 400, "degenerate_level_at_zero": 150},
-    "thorough": {"extra_first_order_compared": 1000, "extra_first_M_param_frozen": 150, "extra_noparam_operator_compared": 150, "implicit_backward_solves": 15000, "dense_backward_calls": 3000, "degeneracy_maps_seen": 4000, "bck_exactsolve": 8000,
+    "thorough": {"extra_first_order_compared": 1000, "extra_first_M_param_frozen": 150, "extra_noparam_operator_compared": 150, "extra_repeated_backward_compared": 200, "implicit_backward_solves": 15000, "dense_backward_calls": 3000, "degeneracy_maps_seen": 4000, "bck_exactsolve": 8000,
                  "bck_cg": 5000, "bck_bicgstab": 4000, "davidson_calls": 4000, "first_order_compared": 7000,
                  "second_order_compared": 5000, "fd_directions_compared": 15000, "svd_cases_compared": 3500, "with_M_compared": 4000,
                  "degenerate_level_at_zero": 1500},
